@@ -12,7 +12,7 @@ From Coq Require Import List NArith Bool.
 From V.gen Require Consts.
 From V.C03 Require Import Model Msg Proofs UviProofs LsProofs WebRtc WebRtcProofs Fallback.
 From V.C03 Require Import MsgRef MsgProofs MsgInv Chan Dir SimD SimL SimSys BytesThm LazyThm.
-From V.C03 Require Import Work Work2 Live.
+From V.C03 Require Import Work Work2 Live Timed TimedProofs Survivor NegOps LazyBytes Compose Sub SubProofs.
 Import ListNotations.
 Open Scope N_scope.
 
@@ -347,6 +347,297 @@ Theorem C03_offered_always_supported :
   exists m fb, report cfg n = Some (m, fb) /\ In m (mains cfg).
 Proof. exact Fallback.C03_offered_always_supported. Qed.
 Print Assumptions C03_offered_always_supported.
+
+(* degenerate configurations (a fallback that is also a main name, a fallback declared by several
+   mains): a report is still consistent with the declarations *)
+Theorem C03_report_consistent :
+  forall cfg n m fb, report cfg n = Some (m, fb) ->
+  In m (mains cfg) /\
+  match fb with
+  | Some f => f = n /\ exists fs, In (m, fs) cfg /\ In n fs
+  | None => m = n /\ ~ In n (fallbacks cfg)
+  end.
+Proof. exact Fallback.C03_report_consistent. Qed.
+Print Assumptions C03_report_consistent.
+
+(* for a well-formed configuration the hash-map iteration order (the order of the list) does not
+   influence any report *)
+Theorem C03_report_order_irrelevant :
+  forall cfg cfg' n, wf_cfg cfg -> Permutation.Permutation cfg cfg' -> report cfg' n = report cfg n.
+Proof. exact Fallback.C03_report_order_irrelevant. Qed.
+Print Assumptions C03_report_order_irrelevant.
+
+(* `protocol_codec` resolves a name to the same main protocol as `report_substream_open` *)
+Theorem C03_codec_resolves_like_report :
+  forall cfg n, resolve cfg n = option_map fst (report cfg n).
+Proof. exact Fallback.C03_codec_resolves_like_report. Qed.
+Print Assumptions C03_codec_resolves_like_report.
+
+(* the trace oracle of the fallback mode is exact on well-formed configurations: the only report
+   it accepts is the model's (so "accepted by the oracle" means "as the theorems above say") *)
+Theorem C03_fallback_oracle_exact :
+  forall cfg n r, wf_cfg cfg -> ok_rep cfg n r = true -> r = report cfg n.
+Proof. exact Fallback.C03_ok_rep_exact. Qed.
+Print Assumptions C03_fallback_oracle_exact.
+
+(* ... and it accepts the model's own trace on EVERY input (all pools, configurations - degenerate
+   and ill-formed ones included -, report lists): trace parser vs. trace encoder, canonical pool
+   indices, per-report checks, the table rows of `protocols_with_keep_alives` and the coverage
+   check. A rejected implementation trace is therefore never a quirk of the oracle's wire layer. *)
+Theorem C03_fallback_oracle_accepts_model :
+  forall case : list N, ok_fallback case (run_fallback case) = true.
+Proof. exact Fallback.ok_fallback_accepts_model. Qed.
+Print Assumptions C03_fallback_oracle_accepts_model.
+
+(* ---- layer 7: the transports' timeout wrapper around a negotiation (`negotiate_protocol` of
+   src/transport/{tcp,websocket}/connection.rs: tokio::time::timeout around the select future).
+   Timed.v puts a clock, one deadline per side (fixed at the side's first poll) and the abort
+   (result Timeout, stream dropped = outbound pipe closed mid-frame or not) on top of the
+   byte-level system; events are polls of either side and clock ticks in any order. *)
+
+(* the peer of a dropped stream: one poll of ANY task on an inbound pipe that the peer has closed
+   does what the same poll does on the pipe as it was, or the task has seen the end of the stream
+   and is finished: with a failure, or - it was reading application data - delivering what it had
+   read with a clean EOF, or - it was still expecting an optimistic confirmation - with a read
+   error; in the last two cases it keeps the result it had. It never invents a success. *)
+Theorem C03_timeout_peer_poll :
+  forall fuel t pin pout t1 pi1 po1,
+  t_poll fuel t pin pout = (t1, pi1, po1) ->
+  exists t1' pi1' po1', t_poll fuel t (pipe_close pin) pout = (t1', pi1', po1') /\
+    ((t1' = t1 /\ pi1' = pipe_close pi1 /\ po1' = po1) \/
+     (t_ph t1' = TDone /\
+      (fst (t_res t1') <> 0 \/
+       (t_res t1' = t_res t1 /\
+        exists acc, t_ph t1 = TRead NCompleted acc /\ t_got t1' = acc /\ t_end t1' = 0) \/
+       (t_res t1' = t_res t1 /\ t_end t1' <> 0 /\
+        exists g acc, t_ph t1 = TRead g acc /\ g <> NCompleted)))).
+Proof. exact t_poll_closed. Qed.
+Print Assumptions C03_timeout_peer_poll.
+
+(* SAFETY under timeouts: for all timeouts and every interleaving of polls and clock ticks, a side
+   that reports success reports the dialer's first supported name with its exact index - a timer
+   firing at any point of the negotiation (mid-frame included) never makes either side settle on
+   a wrong protocol *)
+Theorem C03_timeout_dialer_result :
+  forall c to_d to_l es, wf_case c ->
+  forall i, t_res (s_d (ts_sys (trun to_d to_l es (tinit c)))) = (0, i) ->
+  exists p, first_common (c_ds c) (c_ls c) = Some p /\ first_at (c_ds c) (c_ls c) i p.
+Proof. exact timed_dialer_result. Qed.
+Print Assumptions C03_timeout_dialer_result.
+
+Theorem C03_timeout_listener_result :
+  forall c to_d to_l es, wf_case c ->
+  forall j, t_res (s_l (ts_sys (trun to_d to_l es (tinit c)))) = (0, j) ->
+  exists p, first_common (c_ds c) (c_ls c) = Some p /\ lidx 0 (c_ls c) p = Some j.
+Proof. exact timed_listener_result. Qed.
+Print Assumptions C03_timeout_listener_result.
+
+(* when both sides report success no timer has interfered: the timed run IS a plain run, so
+   C03_bytes_transparent and the hand-over theorems apply to it verbatim *)
+Theorem C03_timeout_both_ok_plain :
+  forall c to_d to_l es,
+  let sa := ts_sys (trun to_d to_l es (tinit c)) in
+  fst (t_res (s_d sa)) = 0 -> fst (t_res (s_l sa)) = 0 ->
+  exists who, sa = polls who (sys_init c).
+Proof. exact timed_both_ok_plain. Qed.
+Print Assumptions C03_timeout_both_ok_plain.
+
+(* the inherent one-sided case (the listener has accepted, the dialer's timer fires before it reads
+   the confirmation; C03_timeout_example): the listener's stream then delivers NOTHING - no
+   negotiation byte ever reaches the application as data - and ends with a clean EOF. For all
+   timeouts and interleavings. *)
+Theorem C03_timeout_survivor_clean :
+  forall c, wf_case c -> forall to_d to_l es,
+  let sa := ts_sys (trun to_d to_l es (tinit c)) in
+  t_done (s_d sa) = true -> t_done (s_l sa) = true ->
+  fst (t_res (s_d sa)) <> 0 -> fst (t_res (s_l sa)) = 0 ->
+  t_got (s_l sa) = [] /\ t_end (s_l sa) = 0.
+Proof. exact timed_survivor_clean. Qed.
+Print Assumptions C03_timeout_survivor_clean.
+
+(* TERMINATION under timeouts: any timeouts, every fair timed schedule (K blocks each polling both
+   sides, ticks anywhere): both tasks finish; a fired timer strictly lowers the potential and the
+   peer of an aborted side cannot block on the closed pipe *)
+Theorem C03_timeout_terminates :
+  forall c to_d to_l, wf_case c -> forall K es,
+  tfair K es -> Phi (sys_init c) < N.of_nat K ->
+  let sa := ts_sys (trun to_d to_l es (tinit c)) in
+  t_done (s_d sa) = true /\ t_done (s_l sa) = true.
+Proof. exact timed_terminate. Qed.
+Print Assumptions C03_timeout_terminates.
+
+(* while the clock has not reached the timeouts the wrapper is invisible: the timed run equals
+   the plain run of the same polls (so layers 3-4 are theorems about `negotiate_protocol`) *)
+Theorem C03_timeout_no_fire :
+  forall c to_d to_l es, nticks es < to_d -> nticks es < to_l ->
+  ts_sys (trun to_d to_l es (tinit c)) = polls (polls_of es) (sys_init c).
+Proof. exact timed_no_fire. Qed.
+Print Assumptions C03_timeout_no_fire.
+
+(* the scheduler the harness uses for the timed mode, under any timeouts *)
+Theorem C03_timeout_run_correct :
+  forall c to_d to_l fuel S st, wf_case c ->
+  run_tsys to_d to_l fuel (c_sched c) false 0 (tinit c) = (S, st) ->
+  let s := ts_sys S in
+  (forall i, t_res (s_d s) = (0, i) ->
+     exists p, first_common (c_ds c) (c_ls c) = Some p /\ first_at (c_ds c) (c_ls c) i p) /\
+  (forall j, t_res (s_l s) = (0, j) ->
+     exists p, first_common (c_ds c) (c_ls c) = Some p /\ lidx 0 (c_ls c) p = Some j) /\
+  (st = 0 -> fst (t_res (s_d s)) = 0 -> fst (t_res (s_l s)) = 0 ->
+     t_got (s_l s) = c_dpay c /\ t_got (s_d s) = c_lpay c /\
+     t_end (s_d s) = 0 /\ t_end (s_l s) = 0 /\ p_buf (s_dl s) = [] /\ p_buf (s_ld s) = []).
+Proof. exact timed_run_correct. Qed.
+Print Assumptions C03_timeout_run_correct.
+
+(* ---- layer 8: the `Negotiated` stream of the optimistic dialer as an I/O object, byte level,
+   every fragmentation (NegOps.v, LazyBytes.v) *)
+
+(* one Negotiated::poll from any point of the expectation, inbound stream `header frame ++ answer
+   frame ++ tail` with any part of it available, any scripts: the buffered header and proposal
+   are written first; the poll stays inside the two frames, or has consumed EXACTLY them and gives
+   the verdict (Completed iff the answer confirms the proposed name; the stream is left failed
+   otherwise), or the carrier was closed before the answer was complete. `tail` is never touched. *)
+Theorem C03_lazy_expect_exact :
+  forall p m tail, okmsg m ->
+  forall fuel st wbuf hdr pre pin pout g' pin' pout' r,
+  ExpAt m hdr st pre ->
+  (exists fut, pre ++ p_buf pin ++ fut = fr MHeader ++ fr m ++ tail) ->
+  neg_poll fuel (NExpecting st wbuf p hdr) pin pout = (g', pin', pout', r) ->
+  exists consumed written w',
+    p_buf pin = consumed ++ p_buf pin' /\ wbuf = written ++ w' /\ p_buf pout' = p_buf pout ++ written /\
+    match r with
+    | PPending => exists st' hdr', g' = NExpecting st' w' p hdr' /\ ExpAt m hdr' st' (pre ++ consumed)
+    | _ =>
+        (w' = [] /\ pre ++ consumed = fr MHeader ++ fr m /\ r = verdict p m /\ g' = after_verdict r) \/
+        (r = PErr C_IO_EOF /\ p_closed pin = true /\ p_buf pin' = [] /\ g' = NInvalid)
+    end.
+Proof. exact lazy_expect_exact. Qed.
+Print Assumptions C03_lazy_expect_exact.
+
+(* poll_read on the expecting stream: the read that completes the negotiation returns the first
+   bytes of `tail` unchanged (everything consumed is the two frames plus exactly those bytes); a
+   failed expectation is reported by that read, the stream is failed, its outbound side closed *)
+Theorem C03_lazy_read_exact :
+  forall p m tail k, okmsg m -> 1 <= k ->
+  forall st wbuf hdr pre pin pout g' pin' pout' r,
+  ExpAt m hdr st pre ->
+  (exists fut, pre ++ p_buf pin ++ fut = fr MHeader ++ fr m ++ tail) ->
+  op_read 2 k (NExpecting st wbuf p hdr) pin pout = (g', pin', pout', r) ->
+  exists consumed, p_buf pin = consumed ++ p_buf pin' /\
+  match r with
+  | OData bs =>
+      verdict p m = POk /\ g' = NCompleted /\ pre ++ consumed = fr MHeader ++ fr m ++ bs /\
+      p_buf pout' = p_buf pout ++ wbuf /\ (bs = [] -> p_buf pin' = [] /\ p_closed pin = true)
+  | OErr c =>
+      g' = NInvalid /\ p_closed pout' = true /\
+      ((exists c0, verdict p m = PErr c0 /\ c = io_code c0 /\ pre ++ consumed = fr MHeader ++ fr m) \/
+       (c = C_IO_EOF /\ p_closed pin = true /\ p_buf pin' = []))
+  | OPending => exists z, pre ++ consumed ++ z = fr MHeader ++ fr m
+  | ODone _ => False
+  end.
+Proof. exact lazy_read_exact. Qed.
+Print Assumptions C03_lazy_read_exact.
+
+(* poll_write / poll_flush / poll_close on the expecting stream: header and proposal go out first,
+   in order; application bytes are accepted only once that buffer is empty and follow it on the
+   wire; the inbound direction and the expectation are not touched *)
+Theorem C03_lazy_write_exact :
+  forall op st wbuf p hdr pin pout g' pin' pout' r,
+  (match op with OpRead _ => False | OpWrite d => d <> [] | _ => True end) ->
+  op_poll op (NExpecting st wbuf p hdr) pin pout = (g', pin', pout', r) ->
+  exists written w' app,
+    pin' = pin /\ g' = NExpecting st w' p hdr /\ wbuf = written ++ w' /\
+    p_buf pout' = p_buf pout ++ written ++ app /\ (app <> [] -> w' = []) /\
+    match r with
+    | OPending => app = []
+    | ODone n =>
+        w' = [] /\
+        match op with
+        | OpWrite d => app = firstn (N.to_nat n) d /\ 1 <= n
+        | OpClose => app = [] /\ p_closed pout' = true
+        | _ => app = []
+        end
+    | _ => False
+    end.
+Proof. exact lazy_write_exact. Qed.
+Print Assumptions C03_lazy_write_exact.
+
+(* after a failed expectation every operation reports an error (before the repair of this tree:
+   a panic), nothing is read, nothing is written *)
+Theorem C03_negotiated_failed_sticky :
+  forall op pin pout,
+  exists pout', op_poll op NInvalid pin pout = (NInvalid, pin, pout', OErr NEG_GONE) /\
+                p_buf pout' = p_buf pout /\ p_total pout' = p_total pout.
+Proof. exact neg_failed_sticky. Qed.
+Print Assumptions C03_negotiated_failed_sticky.
+
+(* ---- layer 9: a substream opened with fallback names, end to end in the model: the dialer
+   negotiates `main :: fallbacks` (open_substream), the listener the names its ProtocolSet offers
+   (accept_substream), both report through report_substream_open - under any timeouts *)
+Theorem C03_substream_fallback_agreement :
+  forall c to_d to_l es cfgD cfgL p fs,
+  wf_case c -> c_ds c = p :: fs ->
+  wf_cfg cfgD -> In (p, fs) cfgD ->
+  (forall n, In n (c_ls c) <-> In n (offered cfgL)) ->
+  forall i, t_res (s_d (ts_sys (trun to_d to_l es (tinit c)))) = (0, i) ->
+  exists n,
+    nth_error (p :: fs) (N.to_nat i) = Some n /\
+    first_common (p :: fs) (c_ls c) = Some n /\
+    (forall k q, (k < N.to_nat i)%nat -> nth_error (p :: fs) k = Some q -> ~ In q (offered cfgL)) /\
+    report cfgD n = Some (p, if i =? 0 then None else Some n) /\
+    exists m fb, report cfgL n = Some (m, fb) /\ In m (mains cfgL).
+Proof. exact substream_fallback_agreement. Qed.
+Print Assumptions C03_substream_fallback_agreement.
+
+Theorem C03_substream_fallback_listener :
+  forall c to_d to_l es cfgL,
+  wf_case c -> (forall n, In n (c_ls c) <-> In n (offered cfgL)) ->
+  forall j, t_res (s_l (ts_sys (trun to_d to_l es (tinit c)))) = (0, j) ->
+  exists n, first_common (c_ds c) (c_ls c) = Some n /\ nth_error (c_ls c) (N.to_nat j) = Some n /\
+    exists m fb, report cfgL n = Some (m, fb) /\ In m (mains cfgL) /\
+      (wf_cfg cfgL -> report cfgL n = spec cfgL n).
+Proof. exact substream_fallback_listener. Qed.
+Print Assumptions C03_substream_fallback_listener.
+
+(* the end-to-end mode (two real nodes, request-response protocols with fallback names; Sub.v): its
+   trace oracle - "the name in use is the most preferred of main :: fallbacks that the listener
+   offers, delivered to the protocol and with the fallback that Fallback.spec names" - accepts the
+   model's trace on EVERY input *)
+Theorem C03_sub_oracle_accepts_model :
+  forall case : list N, ok_sub case (run_sub case) = true.
+Proof. exact sub_oracle_accepts_model. Qed.
+Print Assumptions C03_sub_oracle_accepts_model.
+
+(* ---- non-vacuity of layer 7: the dialer's timer (1 tick) fires while the listener's confirmation
+   is in flight (the carrier injects one Pending): the listener has accepted "/a" (index 0), the
+   dialer reports Timeout (9) and has dropped its stream; the listener then reads a clean EOF and
+   not a single byte - the inherent case in which only ONE side can report the protocol. *)
+Example C03_timeout_example :
+  let a := [47; 97] in
+  let c := mkCase [a] [a] false [0; 1; 2; 0] [] [] [0] [] [104; 105] [119] in
+  let '(T, status) := run_tsys 1 100 500 (c_sched c) false 0 (tinit c) in
+  status = 0 /\ t_res (s_d (ts_sys T)) = (C_TIMEOUT, 0) /\ t_res (s_l (ts_sys T)) = (0, 0) /\
+  t_got (s_l (ts_sys T)) = [] /\ t_end (s_l (ts_sys T)) = 0 /\ p_closed (s_dl (ts_sys T)) = true.
+Proof. vm_compute. repeat split; reflexivity. Qed.
+
+(* ---- non-vacuity of layer 8: the optimistic dialer of "/a"; the listener answers header,
+   confirmation and "hello". A write of 3 bytes (carrier: 3 bytes, Pending, rest), reads of 3 and
+   64, close, read: the wire carries header, proposal, then 1 2 3; the reads return "hel", "lo",
+   then EOF; final state Completed. And a rejected one: the first read fails, close and write
+   report errors (state failed, outbound closed). *)
+Example C03_lazy_stream_example :
+  let a := [47; 97] in
+  run_session true [a] [1; 1; 0; 5] [3; 0]
+    (frame MSG_HEADER ++ frame (a ++ [NL]) ++ [104; 101; 108; 108; 111])
+    [OpWrite [1; 2; 3]; OpRead 3; OpRead 64; OpClose; OpRead 1] =
+  [1; 0; 0; 0] ++ [1; 1; 2; 3] ++ [0; 1; 1; 3; 104; 101; 108] ++ [0; 0; 1; 2; 108; 111] ++
+  [3; 0; 2; 0] ++ [0; 0; 1; 0] ++
+  [0; 1; 27] ++ frame MSG_HEADER ++ frame (a ++ [NL]) ++ [1; 2; 3] ++ [0] /\
+  run_session true [a] [] [] (frame MSG_HEADER ++ frame MSG_NA ++ [104; 101])
+    [OpRead 3; OpClose; OpWrite [1]] =
+  [1; 0; 0; 0] ++ [0; 0; 3; 1] ++ [3; 0; 3; 1] ++ [1; 0; 3; 1] ++
+  [2; 1; 24] ++ frame MSG_HEADER ++ frame (a ++ [NL]) ++ [2; 104; 101].
+Proof. vm_compute. split; reflexivity. Qed.
 
 (* ---- non-vacuity: the byte-level system on a concrete case, one byte per read and write,
    Pending injections, listener polled first: agreement on "/b" (dialer index 1, listener index
